@@ -1090,6 +1090,23 @@ func (r *run) c11h(g *gen.G, budget int) {
 			r.violation("helper-"+what, op, fmt.Sprintf("specification says %d, the function returned %d", want, got))
 		}
 	}
+	// the exported flag, priority and group-command constants against the layout of the specification
+	// (control field 1: bit 7 frame format, 5 repeat, 4 broadcast, 1 acknowledge request, 0 error;
+	// control field 2: bit 7 address type, low nibble extended format)
+	for _, c := range []struct {
+		name      string
+		got, want int
+	}{
+		{"Control1StdFrame", int(cemi.Control1StdFrame), 128}, {"Control1NoRepeat", int(cemi.Control1NoRepeat), 32},
+		{"Control1NoSysBroadcast", int(cemi.Control1NoSysBroadcast), 16}, {"Control1WantAck", int(cemi.Control1WantAck), 2},
+		{"Control1HasError", int(cemi.Control1HasError), 1}, {"Control2GroupAddr", int(cemi.Control2GroupAddr), 128},
+		{"Control2LTEFrame", int(cemi.Control2LTEFrame), 4}, {"PrioSystem", int(cemi.PrioSystem), 0},
+		{"PrioNormal", int(cemi.PrioNormal), 1}, {"PrioUrgent", int(cemi.PrioUrgent), 2}, {"PrioLow", int(cemi.PrioLow), 3},
+		{"GroupValueRead", int(cemi.GroupValueRead), 0}, {"GroupValueResponse", int(cemi.GroupValueResponse), 1},
+		{"GroupValueWrite", int(cemi.GroupValueWrite), 2},
+	} {
+		chk("const "+c.name, c.got, c.want, "flag-constant")
+	}
 	for x := 0; x < 256; x++ {
 		chk("prio "+u(x), int(cemi.Control1Prio(cemi.Priority(x))), (x%4)*4, "priority-constructor")
 		chk("hopsc "+u(x), int(cemi.Control2Hops(uint8(x))), min7(x)*16, "hops-constructor")
@@ -1372,15 +1389,49 @@ func (r *run) c12(g *gen.G, budget int) {
 	// a marker no generated message can be mistaken for (14 fixed payload bytes)
 	sentinelData := []byte("\x3fverif-sentinel")
 	sentinel := &cemi.LDataInd{LData: knx.VerifBuildGroupOutbound(knx.GroupEvent{Command: knx.GroupWrite, Destination: 0xffff, Data: sentinelData})}
+	// the worker must run as long as its input channel is open: if it stops taking messages or closes
+	// the group channel, that is reported once and a fresh worker takes over
+	restarts := 0
+	stopped := func(what string, m cemi.Message) {
+		r.violation("group-worker-stopped", "gin "+ktext.Join(ktext.Cemi(m)), what+" although the underlying client's Inbound is still open")
+		restarts++
+		in = make(chan cemi.Message)
+		out = make(chan knx.GroupEvent, 1)
+		go knx.VerifServeGroupInbound(in, out)
+	}
 	// filterOne pushes one message through the real serveGroupInbound
 	filterOne := func(m cemi.Message) (knx.GroupEvent, bool) {
-		in <- m
-		in <- sentinel
-		ev := <-out
+		if restarts > 4 {
+			return knx.GroupEvent{}, false
+		}
+		for _, x := range []cemi.Message{m, sentinel} {
+			select {
+			case in <- x:
+			case <-time.After(2 * time.Second):
+				stopped("the group worker no longer takes messages", m)
+				return knx.GroupEvent{}, false
+			}
+		}
+		var ev knx.GroupEvent
+		var open bool
+		select {
+		case ev, open = <-out:
+		case <-time.After(2 * time.Second):
+			stopped("nothing came out of the group worker for 2 s", m)
+			return knx.GroupEvent{}, false
+		}
+		if !open {
+			stopped("the group Inbound channel was closed", m)
+			return knx.GroupEvent{}, false
+		}
 		if ev.Destination == 0xffff && bytes.Equal(ev.Data, sentinelData) && ev.Source == 0 {
 			return knx.GroupEvent{}, false
 		}
-		<-out // the sentinel
+		select {
+		case <-out: // the sentinel
+		case <-time.After(2 * time.Second):
+			stopped("the marker behind an event did not come out", m)
+		}
 		return ev, true
 	}
 	for r.nOps < budget/2 {
